@@ -32,6 +32,9 @@ pub struct Case {
     /// big tree: (number of small files, a directory already sits where the first FIFO must go)
     #[serde(default)]
     pub big: Option<(u16, bool)>,
+    /// pass --gitignore; 1: the source root's .gitignore is a FIFO, 2: a socket, 3: a regular file, 0: no flag
+    #[serde(default)]
+    pub gitignore: u8,
 }
 
 pub fn strategy() -> BoxedStrategy<Case> {
@@ -48,7 +51,8 @@ pub fn strategy() -> BoxedStrategy<Case> {
             if run.seed % 3 == 0 {
                 run.workers = [1u8, 2, 64][(run.seed / 3 % 3) as usize];
             }
-            Case { tree, specials, shape, run, fault, block, big: None }
+            let gitignore = if run.seed % 11 == 0 { 1 + (run.seed / 11 % 3) as u8 } else { 0 };
+            Case { tree, specials, shape, run, fault, block, big: None, gitignore }
         })
         .boxed()
 }
@@ -115,6 +119,20 @@ pub fn build(c: &Case, root: &[u8]) -> (Vec<Ent>, Inv, Vec<Vec<u8>>) {
                     ents.push(Ent::file(format!("s/big{}/f{}", i % 3, i).as_bytes(), Content::data((i % 40) as u64, (i % 200) as u8)));
                 }
             }
+        }
+    }
+    if c.gitignore > 0 && c.shape == 0 {
+        inv.gitignore = true;
+        match c.gitignore {
+            1 => {
+                ents.push(Ent::new(b"s/.gitignore", Kind::Fifo));
+                specials.push(b"s/.gitignore".to_vec());
+            }
+            2 => {
+                ents.push(Ent::new(b"s/.gitignore", Kind::Sock));
+                specials.push(b"s/.gitignore".to_vec());
+            }
+            _ => ents.push(Ent::file(b"s/.gitignore", Content::data(0, 0))),
         }
     }
     inv.sources = vec![b"s".to_vec()];
@@ -231,6 +249,9 @@ pub fn judge(c: &Case, rec: &mut Rec) -> Verdict {
     let fired: Vec<&Ev> = out.log.iter().filter(|e| e.act.is_some()).collect();
     let th_role = fired.first().and_then(|e| out.roles.get(e.th)).copied().unwrap_or(Role::Unknown);
     let others_busy = fired.first().map(|f| out.log.iter().any(|e| e.th != f.th && e.t_in > f.t_in && e.path.as_ref().map(|p| p.starts_with(&root)).unwrap_or(false))).unwrap_or(false);
+    if c.gitignore > 0 && c.shape == 0 {
+        rec.class(format!("gitignore-file-kind={}", ["-", "fifo", "socket", "regular"][c.gitignore as usize % 4]));
+    }
     let shape = if c.big.is_some() { "big-tree" } else { ["tree", "fifo-source", "socket-source", "empty-dir", "empty-file"][c.shape as usize % 5] };
     let key = format!(
         "{}|w{}|{}|{}|fault={}|{}|specials={}|exit={}",
@@ -470,6 +491,6 @@ impl Check for C07 {
         }
     }
     fn required_classes(&self, _tier: Tier) -> Vec<String> {
-        ["fifo-source", "socket-source", "empty-dir", "empty-file", "|w64|", "|w1|", "|worker|", "|walker|", "|dispatcher|", "api|parblock", "api|parfile|channel", "big-tree", "plan|cfr-errno38", "plan|clamp-cfr", "apibig|parfile", "apibig|parblock"].iter().map(|s| s.to_string()).collect()
+        ["fifo-source", "socket-source", "empty-dir", "empty-file", "|w64|", "|w1|", "|worker|", "|walker|", "|dispatcher|", "api|parblock", "api|parfile|channel", "big-tree", "plan|cfr-errno38", "plan|clamp-cfr", "apibig|parfile", "apibig|parblock", "gitignore-file-kind=fifo"].iter().map(|s| s.to_string()).collect()
     }
 }
